@@ -332,6 +332,7 @@ PROPS = {
     },
     "C18": {
         "units": ["apply"],
+        "bounded_checks": ["simp"],
         "level": "other",
         "property_obligations": ["Formula::apply_fixpoint", "Formula::apply", "lemma_sapply_preserves_ht", "lemma_sapply_preserves_cl"],
         "carriers": [],
@@ -348,6 +349,7 @@ PROPS = {
     },
     "C07": {
         "units": ["simp_int", "simp_cl", "apply"],
+        "bounded_checks": ["simp"],
         "level": "other",
         "property_obligations": ["evaluate_comparisons", "apply_negation_definition_inverse", "apply_reverse_implication_definition",
                                  "apply_equivalence_definition_inverse", "remove_identities", "remove_annihilations", "remove_idempotences",
